@@ -186,7 +186,7 @@ def concretise(m, model):
     return out
 
 
-def check_type(prog, ty, K, timeout_ms=120000):
+def check_type(prog, ty, K, timeout_ms=300000):
     res = []
     t0 = time.time()
     try:
